@@ -176,11 +176,22 @@ func c15Program(k int, xs, ys jast.Node) (jast.Node, string) {
 			&jast.Array{Items: []jast.Node{call("distinct", x)}}, &jast.Array{Items: []jast.Node{call("append", x, ys)}},
 			&jast.Array{Items: []jast.Node{call("filter", x, lam([]string{"e", "i"}, &jast.Bin{Op: ">", L: v("i"), R: &jast.Num{V: 0}}))}},
 			&jast.Array{Items: []jast.Node{call("count", call("shuffle", x))}}, &jast.Array{Items: []jast.Node{x}}}}}}, "argument-unchanged"
+	case 16:
+		// the mean of large numbers is an ordinary number although their total is not
+		big := func(ns ...float64) jast.Node {
+			a := A{}
+			for _, n := range ns {
+				a = append(a, n)
+			}
+			return call("average", lit(a))
+		}
+		return &jast.Array{Items: []jast.Node{big(1e308, 1e308), big(-1e308, -1e308, -1e308, -1e308), big(1.5e308, 1e308), big(1e308, -1e308, 1e308, 5e307),
+			big(1.7976931348623157e308, 1.7976931348623157e308), call("sum", lit(A{1.0, 2.0}))}}, "average-of-large-numbers"
 	}
 	return call("count", call("shuffle", xs)), "shuffle-count"
 }
 
-func c15NProg() int { return len(c15Callbacks) + 2*len(c15Preds) + 2*len(c15Folds) + 17 }
+func c15NProg() int { return len(c15Callbacks) + 2*len(c15Preds) + 2*len(c15Folds) + 18 }
 
 var c15Pool = []interface{}{1.0, 2.0, 2.0, 3.0, -1.0, 0.5, "1", "a", "a", "", true, false, A{1.0}, A{1.0}, A{A{1.0}}, A{}, O{"a": 1.0}, O{"a": 1.0}, O{"a": "1"}, O{}, 1e21,
 	// zero with and without sign inside containers (equal by value)
